@@ -50,6 +50,7 @@ type Violation struct {
 
 // World is one simulated run.
 type World struct {
+	barriers map[string]*barrierRec
 	Cfg  RunConfig
 	Prog *Program
 
